@@ -296,8 +296,26 @@ pub fn gen_rec(r: &mut Rng, pool: &mut Vec<Name>, allow_opt: bool) -> Rec {
     let name = gen_name(r, pool);
     let k = r.below(if allow_opt { 14 } else { 13 });
     let (typ, rd) = match k {
-        0 => (1, Rd::Raw((0..4).map(|_| r.next() as u8).collect())),
-        1 => (28, Rd::Raw((0..16).map(|_| r.next() as u8).collect())),
+        0 => (1, Rd::Raw(if r.below(4) == 0 { [[0u8, 0, 0, 0], [255, 255, 255, 255], [127, 0, 0, 1], [192, 0, 2, 1]][r.below(4)].to_vec() } else { (0..4).map(|_| r.next() as u8).collect() })),
+        // addresses with structure a library routine may treat specially (unspecified, loopback, IPv4-mapped,
+        // IPv4-compatible, NAT64, 6to4, link-local, multicast, all ones) next to arbitrary ones
+        1 => (28, Rd::Raw(if r.below(3) == 0 {
+            let v4 = [192u8, 0, 2, 1];
+            let mut a = [0u8; 16];
+            match r.below(10) {
+                0 => {}
+                1 => a[15] = 1,
+                2 => { a[10] = 0xff; a[11] = 0xff; a[12..].copy_from_slice(&v4); }
+                3 => a[12..].copy_from_slice(&v4),
+                4 => { a[1] = 0x64; a[2] = 0xff; a[3] = 0x9b; a[12..].copy_from_slice(&v4); }
+                5 => { a[0] = 0x20; a[1] = 0x02; a[2..6].copy_from_slice(&v4); }
+                6 => { a[0] = 0xfe; a[1] = 0x80; a[15] = 1; }
+                7 => { a[0] = 0xff; a[1] = 0x02; a[15] = 1; }
+                8 => { a[10] = 0xff; a[11] = 0xff; }
+                _ => a = [0xff; 16],
+            }
+            a.to_vec()
+        } else { (0..16).map(|_| r.next() as u8).collect() })),
         2 => (2, Rd::Name(gen_name(r, pool))),
         3 => (5, Rd::Name(gen_name(r, pool))),
         4 => (12, Rd::Name(gen_name(r, pool))),
@@ -319,7 +337,18 @@ pub fn gen_rec(r: &mut Rng, pool: &mut Vec<Name>, allow_opt: bool) -> Rec {
             n
         })),
         9 => (43, Rd::Raw((0..r.range(4, 40)).map(|_| r.next() as u8).collect())),
-        10 => ([99u16, 257, 65, 46, 0, 65535][r.below(6)], Rd::Raw((0..r.below(12)).map(|_| r.next() as u8).collect())),
+        // types the library treats as opaque, among them the ones whose RFC data holds names (MD MF MB MG MR MINFO RP
+        // AFSDB RT SIG PX SRV NAPTR KX NSEC TKEY TSIG): arbitrary bytes, or bytes that look like a name / a pointer
+        10 => ([99u16, 257, 65, 46, 0, 65535, 3, 4, 7, 8, 9, 14, 17, 18, 21, 24, 26, 33, 35, 36, 47, 249, 250, 13, 11, 10, 38, 40, 42, 27][r.below(30)],
+               Rd::Raw(match r.below(8) {
+                   0 => vec![3, b'a', b'b', b'c'],
+                   1 => vec![0xc0, 0x0c],
+                   2 => vec![0x3f],
+                   3 => vec![3, b'a', b'b', b'c', 0],
+                   4 => vec![1, b'x', 0xc0, 0x0c],
+                   5 => vec![0, 10, 0, 5, 0x01, 0xbb, 2, b'n', b's', 0xc0, 0x0c],
+                   _ => (0..r.below(12)).map(|_| r.next() as u8).collect(),
+               })),
         11 => (99, Rd::Raw(vec![])),
         12 => (16, Rd::Raw(vec![0xc0, 0x0c, 0xc0, 0xff])),
         _ => (41, Rd::Raw(gen_opt_rdata(r))),
